@@ -81,7 +81,7 @@ CLAIMED = {
    design="§6 C15"),
  "C16": dict(
    technique="crash/hang/memory monitoring of isolated worker processes: panic hook + catch_unwind, counting allocator with hard cap, hook step budget, signal/exit-status supervision; bounded-exhaustive dictionary lines, structure-aware hostile programs, mutation fuzzing (thorough: + valgrind memcheck and Miri legs)",
-   text="Every case is built alone in a worker process (8 MiB main-thread stack) under a panic hook, a counting allocator capped at 256 MiB live heap, a hook step budget of 5e7 (deterministic hang verdict) and signal supervision: all one-line programs head x operand tuples of length 0-2 over a 50-entry hostile dictionary (complete; length 3 sampled in quick, complete in thorough), ~160 structure-aware hostile programs (unbalanced/deep conditionals and macros, recursive macros/.equ, expression ladders to depth 30000, absurd .org/.byte, 60 KB tokens, self-including files) and byte/token mutations of valid generated programs. Any panic, signal death, cap or budget hit is a violation; abnormal verdicts are reproduced alone before they are reported. Dictionary lines of length 0-1 (directives 2; thorough all of length 2) are repeated inside a called macro body, a taken, a skipped and an .else branch; structured cases include multi-byte/zero-width/control characters next to every special character in every lexical position (also in macro bodies and as macro argument) and symbol cycles / doubling ladders through every function and operator kind.",
+   text="Every case is built alone in a worker process (8 MiB main-thread stack) under a panic hook, a counting allocator capped at 256 MiB live heap, a hook step budget of 5e7 (deterministic hang verdict) and signal supervision: all one-line programs head x operand tuples of length 0-2 over a 50-entry hostile dictionary (complete; length 3 sampled in quick, complete in thorough), ~160 structure-aware hostile programs (unbalanced/deep conditionals and macros, recursive macros/.equ, expression ladders to depth 30000, absurd .org/.byte, 60 KB tokens, self-including files) and byte/token mutations of valid generated programs. Any panic, signal death, cap or budget hit is a violation; abnormal verdicts are reproduced alone before they are reported. Dictionary lines of length 0-1 (directives 2; thorough all of length 2) are repeated inside a called macro body, a taken, a skipped and an .else branch; structured cases include multi-byte/zero-width/control characters next to every special character in every lexical position (also in macro bodies and as macro argument) and symbol cycles / doubling ladders through every function and operator kind. Since the eleventh seeding round the workers also count allocator calls per build, a deterministic measure of work the step hooks do not see: more than 2e6 + 400 per source byte or hook step is reported (largest ratio on the unchanged tree: 26), and a build is given up after 3e9 calls.",
    note="\"Promptly\" is restated as <= 5e7 hook steps (lines, items and expression evaluation steps) for inputs <= 64 KiB and \"out of proportion\" as > 256 MiB live heap; a wall-clock backstop firing alone is inconclusive. One open known finding (exponential macro expansion), see KNOWN_FINDINGS.txt.",
    design="§6 C16"),
  "C18": dict(
